@@ -123,6 +123,7 @@ BASE_ENV = {
     "abs": abs,
     "Aggregate": lambda s, init, f: functools.reduce(f, s, init),
     "MetaData": lambda s, d: s,
+    "kwfn": lambda x, ref=0: x + 2 * ref,  # an ordinary (non-operator) function taking a keyword argument
     "__mkdict": _mkdict,
     "__attrdict": AttrDict,
     "ResultTTree": lambda s, cols, tree, fname: ("ttree", list(s), cols, tree, fname),
